@@ -76,6 +76,9 @@ var Kinds = []string{"iface", "any", "reflect", "mixed-any", "mixed-reflect"}
 // AllKinds adds the precedence back-end: reflection-capable structs with an AnyResolver installed.
 var AllKinds = []string{"iface", "any", "reflect", "mixed-any", "mixed-reflect", "any-over-reflect"}
 
+// SentinelErr is the shared *ggql.Error instance of the "sentinel" fault kind.
+var SentinelErr = &ggql.Error{Base: fmt.Errorf("%w: %w (shared sentinel instance)", ggql.ErrResolve, ErrInjected)}
+
 // ErrInjected is the base of every injected failure.
 var ErrInjected = errors.New("injected failure")
 
@@ -250,6 +253,10 @@ func makeErr(f model.Fault, k model.CallKey) error {
 	case "gerror":
 		return &ggql.Error{Base: fmt.Errorf("%w (ggql.Error) at node %d field %s", ErrInjected, k.Node, k.Field),
 			Extensions: map[string]interface{}{"code": "INJECTED"}}
+	case "sentinel":
+		// an application-owned error VALUE built once with the public ErrResolve and returned by every failing site,
+		// in every request: whatever ggql does with it must not accumulate on the instance
+		return SentinelErr
 	}
 	return fmt.Errorf("%w at node %d field %s", ErrInjected, k.Node, k.Field)
 }
